@@ -129,6 +129,8 @@ func (p *pathRun) coordTerms(co *curveObj, d, tau *smt.Term) (x, y *smt.Term) {
 		if co.name == "secp256k1" {
 			// no finite point of secp256k1 has x = 0 and y = 0 (0 is not a cube-free root: y^2 = 7)
 			p.axiom("point-not-origin", c.Not(c.And(c.Eq(x, c.IntC64(0)), c.Eq(y, c.IntC64(0)))))
+			// ... and none has x = 0 (7 is not a square mod p) or y = 0 (the group has odd order)
+			p.axiom("point-no-zero-coordinate", c.Implies(c.Not(c.Eq(c.Mod(d, c.IntC(co.N)), c.IntC64(0))), c.And(c.Gt(x, c.IntC64(0)), c.Gt(y, c.IntC64(0)))))
 		}
 	}
 	return
